@@ -207,7 +207,8 @@ impl WindowSize {
             (WindowSize::Value(a), WindowSize::Mss(b)) => {
                 if let Some(mss_value) = mss {
                     if let Some(ratio_other) = a.checked_div(mss_value) {
-                        if *b as u16 == ratio_other {
+                        // the window has to be an exact multiple of the MSS, as `mss*N` says
+                        if a.checked_rem(mss_value) == Some(0) && *b as u16 == ratio_other {
                             debug!(
                                 "window size difference: a {}, b {} == ratio_other {}",
                                 a, b, ratio_other
